@@ -37,6 +37,7 @@ func init() {
 		"strings.TrimLeft":                 extStringsTrimLeft,
 		"strings.TrimSpace":                extStringsTrimSpace,
 		"strings.Index":                    extStringsIndex,
+		"strings.IndexByte":                extStringsIndexByte,
 		"strings.Repeat":                   extStringsRepeat,
 		"strings.Contains":                 extStringsContains,
 		"(*strings.Builder).WriteString":   extBuilderWriteString,
@@ -646,6 +647,39 @@ func extStringsIndex(fr *frame, args []value) value {
 		}
 	}
 	return SymInt{T: fmt.Sprintf("(str.indexof %s %s 0)", StrTerm(args[0]), StrTerm(args[1])), Kind: types.Int}
+}
+
+// extStringsIndexByte: strings.IndexByte(s, c) for a concrete ASCII byte c on a
+// rope made of literals and symbolic source characters: the parts are
+// scanned in order; a one-byte symbolic character is a decision (is it c?),
+// a multi-byte one cannot contain an ASCII byte.
+func extStringsIndexByte(fr *frame, args []value) value {
+	cb, ok := args[1].(uint8)
+	if s, ok1 := args[0].(string); ok1 && ok {
+		return strings.IndexByte(s, cb)
+	}
+	r, isRope := args[0].(*Rope)
+	if !ok || !isRope || cb >= 0x80 {
+		panic(Inconclusive{"symbolic or unsupported argument of strings.IndexByte"})
+	}
+	off := 0
+	for _, p := range r.Parts {
+		switch p.Kind {
+		case PLit:
+			if i := strings.IndexByte(p.Lit, cb); i >= 0 {
+				return off + i
+			}
+			off += len(p.Lit)
+		case PCell:
+			if p.Width == 1 && fr.i.ctx.Decide(fmt.Sprintf("(= %s %d)", p.Lit, cb)) {
+				return off
+			}
+			off += p.Width
+		default:
+			panic(Inconclusive{"symbolic or unsupported argument of strings.IndexByte"})
+		}
+	}
+	return -1
 }
 
 func extStringsRepeat(fr *frame, args []value) value {
